@@ -44,6 +44,10 @@ def run(chk, repo):
     windows(chk, repo)
     oversize(chk, repo)
     rw_merge(chk, repo)
+    # a terminal's window is served by one FMMU of its own: the claim
+    # discipline of map_fmmu (shared with C20)
+    from . import c20
+    c20.run(chk, repo)
 
 
 def rw_merge(chk, repo):
@@ -105,11 +109,11 @@ def allocation_semantic(chk, repo, rule="R18.6"):
     sm = Evaluator(repo, smc.module, smc).enum_members(smc)
     IN, OUT = sm["IN"], sm["OUT"]
     specs = {
-        "A": (1, True, 4, 0x1100, 2, 0x1000, True),
+        "A": (1, True, 5, 0x1100, 3, 0x1000, True),
         "B": (2, True, 0, None, 6, 0x1000, True),
         "C": (3, False, 3, 0x1100, 5, 0x1000, True),
         "D": (4, False, 2, 0x1180, 2, 0x1080, False),
-        "E": (5, True, 8, 0x1100, 4, 0x1000, False),
+        "E": (5, True, 7, 0x1100, 4, 0x1000, False),
         "F": (6, False, 0, None, 7, 0x1000, True),
     }
     groups = [list(p_) for p_ in itertools.permutations("ABCD")][::3] + [
